@@ -2009,6 +2009,17 @@ fn rekey_cases(sink: &mut Sink, rng: &mut Rng, tier: &str) {
             }
         }
     }
+    // (a') histories outside the property's fault model, for the correspondence only (no intents): a transfer that lost its
+    // tail, then the same key re-sent WITHOUT announcement (second loss).  The plugin cannot tell the re-sent packages from
+    // late duplicates, ignores them up to the gap and fills the gap: documented quirk (docs/C17.md), the model must agree.
+    for (n, bs, with_flfi, allow) in [(4u64, 4u64, true, true), (4, 4, false, true), (3, 1, true, false), (2, 7, false, true)] {
+        let p1 = simple_plan(17, b"app.log", rekey_file(rng, n, bs, (bs + 1) / 2), bs);
+        let p2 = rekey_next(rng, &p1, 0, true, 2);
+        let mut msgs = transfer_msgs(&p1, &Fault::Trunc(n as usize - 1, with_flfi));
+        msgs.extend(transfer_msgs(&p2, &Fault::DropFlst));
+        let cfg = if allow { std_cfg() } else { autosave_cfg(false, "*", "") };
+        record(sink, "rekey_quirk", CaseIn { cfg, msgs, intents: vec![], isolate: false, probe: None, spre: vec![], sdirs: vec![], sreadonly: vec![], saves: vec![] });
+    }
     // (b) the same serial on several ECUs and in several lifecycles at once, each key used one or more times
     let n_coll = if quick { 24 } else { 120 };
     for _ in 0..n_coll {
